@@ -41,16 +41,19 @@ static char *hexarg(const uint8_t *p, size_t n)
 }
 
 /* parse one "%08x:hh-hh-.." token; returns bytes consumed or -1 */
+static int hexval(int c) { return c >= '0' && c <= '9' ? c - '0' : c >= 'a' && c <= 'f' ? c - 'a' + 10 : c >= 'A' && c <= 'F' ? c - 'A' + 10 : -1; }
 static long parse_hex_field(const char *s, uint8_t **out, size_t *n)
 {
-	unsigned len;
-	if (sscanf(s, "%8x:", &len) != 1 || s[8] != ':') return -1;
+	/* "%08x:" then len pairs of hex digits separated by '-' (no sscanf: lines can be megabytes long) */
+	unsigned long len = 0;
+	for (int i = 0; i < 8; i++) { int h = hexval(s[i]); if (h < 0) return -1; len = len * 16 + h; }
+	if (s[8] != ':') return -1;
 	const char *p = s + 9;
 	uint8_t *b = xmalloc(len);
-	for (unsigned i = 0; i < len; i++) {
-		unsigned v;
-		if (sscanf(p, "%2x", &v) != 1) { free(b); return -1; }
-		b[i] = v; p += 2;
+	for (unsigned long i = 0; i < len; i++) {
+		int h = hexval(p[0]), l = h < 0 ? -1 : hexval(p[1]);
+		if (h < 0 || l < 0) { free(b); return -1; }
+		b[i] = (uint8_t)(h * 16 + l); p += 2;
 		if (i + 1 < len) { if (*p != '-') { free(b); return -1; } p++; }
 	}
 	*out = b; *n = len;
